@@ -12,6 +12,8 @@ struct Wrap { long from; int how; Wrap() : from(0), how(0) {}
   Wrap(const vf::V& v) : from(v.id), how(1) {} Wrap(vf::V&& v) : from(v.id), how(2) { vf::V t(std::move(v)); }
   Wrap(vf::MV&& v) : from(v.id), how(3) { vf::MV t(std::move(v)); } };
 // NX = false: a container whose move constructor may throw (hand-written lists, std::deque-like types)
+// a type with an initializer-list constructor and another one-argument constructor: construct<T> is documented (and implemented) as T{value}
+struct IL { int how; long v; IL(std::initializer_list<long> l) : how(1), v(l.size() ? *l.begin() : -1) {} explicit IL(long n) : how(2), v(n) {} };
 template<class T, bool NX = true> struct Cont { std::vector<T> items; static inline long copies = 0; long tag;
   explicit Cont(long t) : tag(t) {} Cont(const Cont& o) : items(o.items), tag(o.tag) { ++copies; } Cont(Cont&& o) noexcept(NX) : items(std::move(o.items)), tag(o.tag) { o.tag = -o.tag; }
   void push_back(const T& v) { items.push_back(v); } void emplace_back(T&& v) { items.emplace_back(std::move(v)); } };
@@ -49,6 +51,11 @@ def emit(n):
                     o.append('{ begin(); %s Wrap w = construct<Wrap, %d>{}(%s); REP("construct", %d, %d, 0, "%s", w.from == %d && w.how == %d); %s std::printf("\\n"); }' % (
                         decl(n, ty), k, args, n, k, cat, 100 + k, {'lv': 1, 'rv': 2, 'mo': 3}[cat], ids(n)))
                     expect.append(('construct', n, k, 0, cat))
+        # construct<T, k> is brace construction: a type with an initializer-list constructor gets the value as its single element
+        for k in range(1, n + 1):
+            largs = ', '.join('%dL' % (500 + i) for i in range(1, n + 1))
+            o.append('{ begin(); IL w = construct<IL, %d>{}(%s); REP("constructil", %d, %d, 0, "rv", (w.how == 1 && w.v == %d)); %s std::printf("\\n"); }' % (k, largs, n, k, 500 + k, ' '.join('std::printf(" c");' for _ in range(n))))
+            expect.append(('constructil', n, k, 0, 'rv'))
         # val / create ignore all arguments
         for cat, ty in (('rv', 'vf::V'), ('mo', 'vf::MV')):
             args = ', '.join('std::move(a%d)' % i for i in range(1, n + 1))
@@ -122,7 +129,7 @@ def run(flavour='asan0'):
             if moved != (i in exp_moved): problems.append('argument %d %s' % (i, 'was moved from' if moved else 'was not consumed'))
             elif abs(int(v)) != 100 + i: problems.append('argument %d changed identity' % i)
         if problems:
-            desc = {'e': '_e%d' % k, 'construct': 'construct<T,%d>' % k, 'push_back': 'push_back<%d,%d>' % (c, k), 'emplace_back': 'emplace_back<%d,%d>' % (c, k), 'val': 'val', 'create': 'create<T>'}[name]
+            desc = {'e': '_e%d' % k, 'construct': 'construct<T,%d>' % k, 'constructil': 'construct<T,%d> for a T with an initializer-list constructor (T{value})' % k, 'push_back': 'push_back<%d,%d>' % (c, k), 'emplace_back': 'emplace_back<%d,%d>' % (c, k), 'val': 'val', 'create': 'create<T>'}[name]
             out['viol'].append((['input:%s-%d-%d-%d-%s' % case], '%s with %d %s arguments: %s' % (desc, n, {'lv': 'lvalue', 'rv': 'rvalue', 'mo': 'move-only'}[cat], '; '.join(problems)), {'case': case, 'record': r}))
     out['samples'] = [{'case': 'push_back<3,1> with 4 rvalue arguments', 'record': got.get(('push_back', 4, 1, 3, 'rv'))}, {'case': '_e9 with 9 move-only arguments', 'record': got.get(('e', 9, 9, 0, 'mo'))}]
     return out, len(expect)
